@@ -107,26 +107,24 @@ theorem progFar_not_near : ¬ NearRefs progFar := by
   revert this
   decide
 
-/-- a Boolean check of a successful result -/
-def okAnd (x : Except Err AsmResult) (f : AsmResult → Bool) : Bool :=
+/-- a decidable check of a successful result -/
+def okAnd (x : Except Err AsmResult) (f : AsmResult → Prop) [DecidablePred f] : Bool :=
   match x with
-  | .ok r => f r
+  | .ok r => decide (f r)
   | .error _ => false
 
-theorem okAnd_spec {x : Except Err AsmResult} {f : AsmResult → Bool} (h : okAnd x f = true) :
-    ∃ r, x = .ok r ∧ f r = true := by
+theorem okAnd_spec {x : Except Err AsmResult} {f : AsmResult → Prop} [DecidablePred f] (h : okAnd x f = true) :
+    ∃ r, x = .ok r ∧ f r := by
   cases x with
   | error e => cases h
-  | ok r => exact ⟨r, rfl, h⟩
+  | ok r => exact ⟨r, rfl, of_decide_eq_true h⟩
 
 /-- the plain run, evaluated: `auipc ra, 0x100 ; jalr ra, 4(ra)`, `F` at 1048580, 1048584 bytes -/
 theorem progFar_plain : ∃ r₀, assembleItems Hf false progFar [] [] = .ok r₀ ∧ r₀.labels = [("F", 1048580)] ∧
     r₀.bytes.take 8 = [151, 0, 16, 0, 231, 128, 64, 0] ∧ r₀.bytes.length = 1048584 := by
-  have h : okAnd (assembleItems Hf false progFar [] []) (fun r => r.labels == [("F", 1048580)] &&
-      r.bytes.take 8 == [151, 0, 16, 0, 231, 128, 64, 0] && r.bytes.length == 1048584) = true := by decide +kernel
-  obtain ⟨r, hr, hf⟩ := okAnd_spec h
-  simp only [Bool.and_eq_true, beq_iff_eq] at hf
-  exact ⟨r, hr, hf.1.1, hf.1.2, hf.2⟩
+  have h : okAnd (assembleItems Hf false progFar [] []) (fun r => r.labels = [("F", 1048580)] ∧
+      r.bytes.take 8 = [151, 0, 16, 0, 231, 128, 64, 0] ∧ r.bytes.length = 1048584) = true := by decide +kernel
+  exact okAnd_spec h
 
 /-- **the theorem applies where the span hypothesis fails**: the `-c` run of `progFar` succeeds because the
     plain one does -/
@@ -138,11 +136,9 @@ theorem progFar_compressed_ok : ∃ r₁, assembleItems Hf true progFar [] [] = 
     1048572 bytes -/
 theorem progFar_compressed : ∃ r₁, assembleItems Hf true progFar [] [] = .ok r₁ ∧ r₁.labels = [("F", 1048570)] ∧
     r₁.bytes.take 10 = [239, 240, 191, 127, 1, 21, 1, 21, 1, 21] ∧ r₁.bytes.length = 1048572 := by
-  have h : okAnd (assembleItems Hf true progFar [] []) (fun r => r.labels == [("F", 1048570)] &&
-      r.bytes.take 10 == [239, 240, 191, 127, 1, 21, 1, 21, 1, 21] && r.bytes.length == 1048572) = true := by
+  have h : okAnd (assembleItems Hf true progFar [] []) (fun r => r.labels = [("F", 1048570)] ∧
+      r.bytes.take 10 = [239, 240, 191, 127, 1, 21, 1, 21, 1, 21] ∧ r.bytes.length = 1048572) = true := by
     decide +kernel
-  obtain ⟨r, hr, hf⟩ := okAnd_spec h
-  simp only [Bool.and_eq_true, beq_iff_eq] at hf
-  exact ⟨r, hr, hf.1.1, hf.1.2, hf.2⟩
+  exact okAnd_spec h
 
 end BB.Props.C12
